@@ -7,7 +7,9 @@ pub mod c01;
 pub mod c02;
 pub mod c03;
 pub mod c04;
+pub mod c05;
 pub mod c06;
+pub mod c07;
 pub mod c08;
 pub mod c09;
 pub mod c15;
@@ -25,7 +27,9 @@ pub const TABLE: &[(&str, RunFn, ReplayFn)] = &[
     ("C02", c02::run, c02::replay),
     ("C03", c03::run, c03::replay),
     ("C04", c04::run, c04::replay),
+    ("C05", c05::run, c05::replay),
     ("C06", c06::run, c06::replay),
+    ("C07", c07::run, c07::replay),
     ("C08", c08::run, c08::replay),
     ("C09", c09::run, c09::replay),
     ("C15", c15::run, c15::replay),
